@@ -2,8 +2,12 @@
    PriorityQueue.Less is a strict order, total on items whose five keys differ (the property
    excludes full ties); therefore the popped sequence is the unique sorted one, independent of
    push order (map iteration, creation order).  container/heap itself is library code: its
-   contract (pop order is sorted for a strict weak order) is in the trusted base. *)
-From NIPAM Require Import Prio Prio_proofs.
+   contract (pop order is sorted for a strict weak order) is in the trusted base.
+   Over histories (Term_proofs.v): the entry a PATCH is served from is the FIRST of the offered order -- the sorted
+   selector-bearing entries matching the labels of the copy of the node the work item started with, then the
+   selector-less ones -- that has room: every entry before it has, in one of its families, no block free of overlap
+   with CIDRs in use (pools, other ClusterCIDRs' allocations, the node cache). *)
+From NIPAM Require Import Prio Prio_proofs Sys Alloc_proofs Inv_proofs World_proofs Complete_proofs Term_proofs.
 From Coq Require Import Permutation Sorted.
 Open Scope N_scope.
 
@@ -64,3 +68,26 @@ Example C07_nonvacuous :
   let b := mkItem 1 [97] (Some (mkPview 256 28 [50])) None in
   less a b = true /\ less b a = false /\ key a <> key b.
 Proof. cbn. repeat split. discriminate. Qed.
+
+(* ---------- over histories: the serving entry is the first of the order that has room ---------- *)
+Theorem C07_served_from_the_first_entry_with_room :
+  forall po lab ops o w' ob, Forall wf_op ops ->
+  let w := run po lab init_world ops in
+  step po lab w o = (w', ob) ->
+  forall nm cs out, In (FxPatch nm cs out) (ob_fx ob) ->
+  exists m node p, w_ctl w = Some m /\ nm = n_name node /\
+  exists ps pre post, ordered_matching po lab m (n_labels node) true = Ok ps /\ ps = pre ++ p :: post /\
+    forall q c0, In q pre -> get_entry m q = Some c0 -> no_room m (held_cidrs (w_ncache w)) c0.
+Proof. intros po lab ops o w' ob H w Hs nm cs out He. exact (history_patch_is_first_with_room po lab ops o w' ob H Hs nm cs out He). Qed.
+Print Assumptions C07_served_from_the_first_entry_with_room.
+
+(* the same for one call, with the association on success *)
+Theorem C07_node_item_chooses_first_with_room :
+  forall po lab svcs canp apisame held m cached reread outs m' r fx,
+  MapInv m -> sync_node po lab svcs canp apisame held m cached reread outs = (m', r, fx) ->
+  forall nm cs o, In (FxPatch nm cs o) fx ->
+  exists node p, cached = Some node /\ nm = n_name node /\ patch_choice po lab held m (n_labels node) p /\
+    (r = Ok tt -> exists e', get_entry m' p = Some e' /\ has_str nm (cc_assoc e') = true /\
+                   forall x, In x cs -> exists pl, pool_of e' (cf x) = Some pl /\ In x (used pl)).
+Proof. exact sync_node_choice. Qed.
+Print Assumptions C07_node_item_chooses_first_with_room.
